@@ -1180,6 +1180,8 @@ func schedCheck(prop, tier string) int {
 		run.Set("sensitivity_pairs_compared", npairs)
 		run.Set("multisets", len(byMultiset))
 	}
+	// the limit on open files as an environment answer (both properties: digest and clean return)
+	hashUnderFdLimits(run)
 	// supplementary free-running pass under the race detector (never the deciding step)
 	if f := os.Getenv("VERIF_SUPP"); f != "" {
 		var ro struct {
@@ -1221,6 +1223,9 @@ func schedReplay(path string) int {
 	json.Unmarshal(data, &v)
 	var c schedCfg
 	json.Unmarshal(pool.MustJSON(v.Case), &c)
+	if _, ok := v.Case["open_file_limit"]; ok {
+		return fdlimitReplay(v, path)
+	}
 	if len(c.Entries) == 0 {
 		fmt.Println("replay file has no schedule (aggregate finding); re-run the check")
 		return 2
